@@ -1495,7 +1495,12 @@ func (v *VMValue) ComputedExecute(ctx *Context, detail *BufferSpan) *VMValue {
 	}
 
 	if cd.code == nil {
-		_ = vm.Run(cd.Expr)
+		// Parse 会把 NumOpCount 清零，这里保留调用链上累计的算力，否则递归深度不受限制
+		opCount := vm.NumOpCount
+		if err := vm.Parse(cd.Expr); err == nil {
+			vm.NumOpCount = opCount
+			_ = vm.RunAfterParsed()
+		}
 		cd.code = vm.code
 		cd.codeIndex = vm.codeIndex
 	} else {
@@ -1579,7 +1584,12 @@ func (v *VMValue) FuncInvokeRaw(ctx *Context, params []*VMValue, useUpCtxLocal b
 	}
 
 	if cd.code == nil {
-		_ = vm.Run(cd.Expr)
+		// Parse 会把 NumOpCount 清零，这里保留调用链上累计的算力，否则递归深度不受限制
+		opCount := vm.NumOpCount
+		if err := vm.Parse(cd.Expr); err == nil {
+			vm.NumOpCount = opCount
+			_ = vm.RunAfterParsed()
+		}
 		cd.code = vm.code
 		cd.codeIndex = vm.codeIndex
 	} else {
